@@ -1,10 +1,280 @@
 import Driver.Common
-/-! Driver ops of this group; `handle op args` returns `none` for ops it does not know. -/
+import GoSSE.Spec.EventStream
+import GoSSE.Spec.HttpLog
+/-!
+Driver ops of the server group (C16).
+
+`SESS <shape> <faults> <ops>` — `sse.Upgrade` on a recording writer, then `Send`/`Flush` calls.
+`SERVE <shape> <faults> <hdr> <onsession> <provider>` — `Server.ServeHTTP` with a recording provider.
+
+* shape: layers joined by `.`, outermost first, each `n` (no flush method) | `f` (`Flush()`) |
+  `e` (`FlushError() error`) | `b` (both); every layer but the last has `Unwrap()`.
+* faults: `-` or `k:n,…` — writer call number `k` (Write and Flush calls, counted from 0) fails;
+  a failing Write accepts `min n len` bytes.
+* ops: `;`-joined `F` | `S:<items>`; items `,`-joined build steps of the message through the
+  public API: `i=<hex>` (`NewID`), `t=<hex>` (`NewType`), `r=<ns>` (`Retry`), `d=<hex>` (`AppendData`),
+  `c=<hex>` (`AppendComment`); `S:-` is the empty message.
+* hdr: `-` or `;`-joined `<keyhex>=<values>` (direct map assignment; values a hex list).
+* onsession: `nil` | `<ok>/<topics>/<acts>`; acts `-` or `,`-joined `h:<k>=<v>` | `c:<code>` | `w:<hex>` | `f`.
+* provider: `<ret>/<ops>`; ret `nil` | `first` | `own:<hex>`.
+
+Observation text: events `H<l>:<k>=<v>`, `W<l>:<hex>` / `W<l>:<accepted>/<offered>!<k>`,
+`F<l>f`, `F<l>e`, `F<l>e!<k>`, `C<l>:<code>`, `,`-joined (`-` if none); an entry is `<events>><ret>`
+with ret `nil` | `E<k>`; entries `;`-joined. SESS prints the entries or `UNSUPPORTED`; SERVE prints
+`<nocall|call:events> | <nosub|sub:<U|S=hex>/<topics>> | <entries> | <events>`.
+
+`M` is the model's observation. `S` is the verdict of the specification (`Spec/HttpLog`) on the
+observation of the real code (`GO=…`), or on the model's own when no observation is given.
+-/
 namespace Driver.ServerD
-open GoSSE Driver
+open GoSSE Driver GoSSE.Model.Session GoSSE.Model.Server GoSSE.Spec.HttpLog
+
+/-- split at the first occurrence of `c` -/
+def cut (c : Char) (s : String) : String × Option String :=
+  let l := s.toList
+  match l.span (· != c) with
+  | (a, []) => (String.ofList a, none)
+  | (a, _ :: b) => (String.ofList a, some (String.ofList b))
+
+def dropChars (n : Nat) (s : String) : String := String.ofList (s.toList.drop n)
+
+def listOf (sep : String) (s : String) : List String :=
+  if s == "-" || s == "" then [] else s.splitOn sep
+
+/-! ### parsing the case -/
+
+def parseCaps : String → Option Caps
+  | "n" => some .plain | "f" => some .flusher | "e" => some .flushError | "b" => some .both
+  | _ => none
+
+def mkShape : List Caps → Option Shape
+  | [] => none
+  | [c] => some (.base c)
+  | c :: cs => (mkShape cs).map (.wrapped c)
+
+def parseShape (s : String) : Option Shape := (s.splitOn ".").mapM parseCaps >>= mkShape
+
+def parseFaults (s : String) : Option (List (Nat × Nat)) :=
+  (listOf "," s).mapM fun f =>
+    match f.splitOn ":" with
+    | [k, n] => do pure ((← k.toNat?), (← n.toNat?))
+    | _ => none
+
+def schedOf (fs : List (Nat × Nat)) : Sched := fun c => fs.lookup c
+
+/-- `appendText`: one chunk per line of the payload (specification-side line splitter) -/
+def appendText (isComment : Bool) (payload : Bytes) : List (Bytes × Bool) :=
+  let r := Spec.splitLines payload [] false
+  (r.1 ++ (if r.2.isEmpty then [] else [r.2])).map fun l => (l, isComment)
+
+def buildMsg (items : List String) : Option Msg :=
+  items.foldlM (init := (⟨none, none, 0, []⟩ : Msg)) fun m it =>
+    match cut '=' it with
+    | ("i", some v) => some { m with id := newID (unhex v) }
+    | ("t", some v) => some { m with typ := newID (unhex v) }
+    | ("r", some v) => (parseInt? v).map fun (ns : Int) => { m with retryMs := if ns ≤ 0 then 0 else ns.toNat / 1000000 }
+    | ("d", some v) => some { m with chunks := m.chunks ++ appendText false (unhex v) }
+    | ("c", some v) => some { m with chunks := m.chunks ++ appendText true (unhex v) }
+    | _ => none
+
+def parseOp (s : String) : Option Op :=
+  if s == "F" then some .flush
+  else match cut ':' s with
+    | ("S", some items) => (buildMsg (listOf "," items)).map .send
+    | _ => none
+
+def parseOps (s : String) : Option (List Op) := (listOf ";" s).mapM parseOp
+
+def parseHeader (s : String) : Option Header :=
+  (listOf ";" s).mapM fun kv =>
+    match cut '=' kv with
+    | (k, some vs) => some (unhex k, unhexList vs)
+    | _ => none
+
+def parseAct (s : String) : Option WAct :=
+  if s == "f" then some .flush
+  else match cut ':' s with
+    | ("h", some kv) => match cut '=' kv with
+      | (k, some v) => some (.setHeader (unhex k) (unhex v))
+      | _ => none
+    | ("c", some code) => code.toNat?.map .writeHeader
+    | ("w", some p) => some (.write (unhex p))
+    | _ => none
+
+def parseOnSession (s : String) : Option (Option OnSessionB) :=
+  if s == "nil" then some none
+  else match s.splitOn "/" with
+    | [ok, topics, acts] => do
+      let as ← (listOf "," acts).mapM parseAct
+      pure (some ⟨as, unhexList topics, boolOf ok⟩)
+    | _ => none
+
+def parseProvRet (s : String) : Option ProvRet :=
+  if s == "nil" then some .nil
+  else if s == "first" then some .firstErr
+  else match cut ':' s with
+    | ("own", some t) => some (.own (unhex t))
+    | _ => none
+
+def parseProvider (s : String) : Option ProviderB :=
+  match cut '/' s with
+  | (ret, some ops) => do pure ⟨← parseOps ops, ← parseProvRet ret⟩
+  | _ => none
+
+/-! ### printing an observation -/
+
+def showErr : Option Nat → String
+  | some k => s!"!{k}"
+  | none => ""
+
+def showEv : Ev → String
+  | .headerSet l k v => s!"H{l}:{hex k}={hex v}"
+  | .write l a o none => if a == o then s!"W{l}:{hex o}" else s!"W{l}:{hex a}/{hex o}"
+  | .write l a o (some k) => s!"W{l}:{hex a}/{hex o}!{k}"
+  | .flush l .flusher e => s!"F{l}f{showErr e}"
+  | .flush l .flushError e => s!"F{l}e{showErr e}"
+  | .writeHeader l c => s!"C{l}:{c}"
+
+def showEvs (evs : List Ev) : String := if evs.isEmpty then "-" else ",".intercalate (evs.map showEv)
+
+def showRet : Option Nat → String
+  | some k => s!"E{k}"
+  | none => "nil"
+
+def showEntry (e : Entry) : String := s!"{showEvs e.evs}>{showRet e.ret}"
+def showObs (obs : List Entry) : String := if obs.isEmpty then "-" else ";".intercalate (obs.map showEntry)
+
+def showSub : Option Subscription → String
+  | none => "nosub"
+  | some s => "sub:" ++ (match s.lastEventID with | some v => "S=" ++ hex v | none => "U") ++ "/" ++ hexList s.topics
+
+def showServed (o : Served) : String :=
+  (if o.onSessionCalled then "call:" ++ showEvs o.pre else "nocall") ++ " | " ++ showSub o.sub ++ " | "
+    ++ showObs o.obs ++ " | " ++ showEvs o.tail
+
+/-! ### reading an observation back (the real code's) -/
+
+def numPrefix (s : String) : Option (Nat × String) :=
+  let l := s.toList
+  let (d, r) := l.span Char.isDigit
+  (String.ofList d).toNat?.map fun n => (n, String.ofList r)
+
+def readErr (s : String) : Option (Option Nat) :=
+  if s == "" then some none
+  else match s.toList with
+    | '!' :: k => (String.ofList k).toNat?.map some
+    | _ => none
+
+def readEv (s : String) : Option Ev :=
+  match s.toList with
+  | tag :: rest => do
+    let (l, r) ← numPrefix (String.ofList rest)
+    match tag, r.toList with
+    | 'H', ':' :: kv => match cut '=' (String.ofList kv) with
+      | (k, some v) => some (.headerSet l (unhex k) (unhex v))
+      | _ => none
+    | 'W', ':' :: w =>
+      let (body, e) := cut '!' (String.ofList w)
+      let err ← match e with | some k => k.toNat?.map some | none => some none
+      match cut '/' body with
+      | (o, none) => some (.write l (unhex o) (unhex o) err)
+      | (a, some o) => some (.write l (unhex a) (unhex o) err)
+    | 'F', 'f' :: e => (readErr (String.ofList e)).map (.flush l .flusher)
+    | 'F', 'e' :: e => (readErr (String.ofList e)).map (.flush l .flushError)
+    | 'C', ':' :: c => (String.ofList c).toNat?.map (.writeHeader l)
+    | _, _ => none
+  | [] => none
+
+def readEvs (s : String) : Option (List Ev) := (listOf "," s).mapM readEv
+
+def readRet (s : String) : Option (Option Nat) :=
+  if s == "nil" then some none
+  else match s.toList with
+    | 'E' :: k => (String.ofList k).toNat?.map some
+    | _ => none
+
+/-- entries are matched with the ops of the case, in order -/
+def readObs (ops : List Op) (s : String) : Option (List Entry) :=
+  let es := listOf ";" s
+  if es.length != ops.length then none
+  else (ops.zip es).mapM fun (op, e) =>
+    match cut '>' e with
+    | (evs, some ret) => do pure ⟨op, ← readEvs evs, ← readRet ret⟩
+    | _ => none
+
+def readSub (s : String) : Option (Option Subscription) :=
+  if s == "nosub" then some none
+  else match cut ':' s with
+    | ("sub", some r) => match cut '/' r with
+      | (id, some topics) =>
+        let lid := if id == "U" then some none else match cut '=' id with
+          | ("S", some v) => some (some (unhex v))
+          | _ => none
+        lid.map fun l => some ⟨l, unhexList topics⟩
+      | _ => none
+    | _ => none
+
+def readServed (ops : List Op) (s : String) : Option Served :=
+  match s.splitOn " | " with
+  | [pre, sub, obs, tail] => do
+    let (called, preEvs) ← if pre == "nocall" then some (false, []) else match cut ':' pre with
+      | ("call", some evs) => (readEvs evs).map fun e => (true, e)
+      | _ => none
+    let sub ← readSub sub
+    -- the provider may not have been called: then there are no entries
+    let obs ← if sub.isNone && obs == "-" then some [] else readObs ops obs
+    pure ⟨called, preEvs, sub, obs, ← readEvs tail⟩
+  | _ => none
+
+def goOf (args : List String) : Option String :=
+  args.findSome? fun a => if a.startsWith "GO=" then some (dropChars 3 a) else none
+
+/-! ### the ops -/
+
+def sess (args : List String) : String × String :=
+  match args with
+  | shape :: faults :: ops :: rest =>
+    match parseShape shape, parseFaults faults, parseOps ops with
+    | some shape, some fs, some ops =>
+      let sched := schedOf fs
+      let model : Option (Res × List Entry) := (upgrade shape []).map fun (s, _) => (s.res, (runOps sched s 0 ops).obs)
+      let m := match model with | some (_, obs) => showObs obs | none => "UNSUPPORTED"
+      -- the specification judges the real code's observation when there is one
+      let observed : Option (Option (List Entry)) := match goOf rest with
+        | some "UNSUPPORTED" => some none
+        | some g => (readObs ops g).map some
+        | none => some (model.map (·.2))
+      let s := match observed, resolve (layers shape) with
+        | none, _ => "BAD:unreadable-observation"
+        | some none, none => "ok"
+        | some none, some _ => "BAD:upgrade-refused-a-flushing-writer"
+        | some (some _), none => "BAD:upgraded-a-writer-that-cannot-flush"
+        | some (some obs), some res => checkSession res obs
+      (m, s)
+    | _, _, _ => ("bad-args", "bad-args")
+  | _ => ("bad-args", "bad-args")
+
+def serve (args : List String) : String × String :=
+  match args with
+  | shape :: faults :: hdr :: ons :: prov :: rest =>
+    match parseShape shape, parseFaults faults, parseHeader hdr, parseOnSession ons, parseProvider prov with
+    | some shape, some fs, some hdr, some ons, some prov =>
+      let sched := schedOf fs
+      let model := serveHTTP sched shape hdr ons prov
+      let observed : Option Served := match goOf rest with
+        | some g => readServed prov.ops g
+        | none => some model
+      let s := match observed with
+        | none => "BAD:unreadable-observation"
+        | some o => checkServed shape hdr ons (provError prov.ret o.obs).isSome o
+      (showServed model, s)
+    | _, _, _, _, _ => ("bad-args", "bad-args")
+  | _ => ("bad-args", "bad-args")
 
 def handle (op : String) (args : List String) : Option (String × String) :=
-  match op, args with
-  | _, _ => none
+  match op with
+  | "SESS" => some (sess args)
+  | "SERVE" => some (serve args)
+  | _ => none
 
 end Driver.ServerD
